@@ -157,14 +157,17 @@ func main() {
 	run := sim.NewRun("C09", "exploration")
 	run.SetRule("pure case = one (seed, nonce, chain id, weight vector, cnt, tries) tuple through NextUint64/ChooseOne/ChooseSome/ChooseSomeMaxWeight; " +
 		"chain case = one generated history (own genesis, 3-14 validators, ~60 blocks) in which every MsgRequestData outcome is predicted; " +
-		"tss case = one synthetic group driven through GetRandomMembers and successive InitiateNewSigningRound attempts. " +
+		"tss case = one synthetic group driven through GetRandomMembers and successive InitiateNewSigningRound attempts; " +
+		"live case = one history of a real DKG-created bandtss group (3-6 members, lazy and slow signers, several requests per block, oracle results with a TSS encoder) in which " +
+		"the committee of every attempt the chain announces - in a tx, from another module's end blocker, on an end-block retry - is compared with the specification applied to the " +
+		"eligible set of a sequential model (activity flags, DE queue lengths) advanced by the block's operations in order. " +
 		"distinct = distinct (inputs, committee) tuples actually compared (pure: every 4th case recorded) plus distinct per-history ask/eligible sequences")
 	run.Assume(
 		"reference = HMAC_DRBG(SHA-256) per SP 800-90A written with crypto/hmac only (self-tested on the NIST SHA-512 example and the CAVP SHA-256 COUNT=0 vector at start-up); one 8-byte Generate request per integer, big-endian",
 		"weight vectors fed to the samplers have a total <= 2^64-1 and at least cnt positive entries; the real code panics (safeAdd / modulo by zero) outside that domain, which is only observed (class overflow), not judged",
 		"eligible validator order = consensus power (tokens/10^6) descending, operator address ascending; weight = bonded tokens; eligibility (staking status, tokens, oracle IsActive) is read from committed state before the block; delegations, undelegations, unjail and downtime-jailing blocks carry no requests; MsgActivate in the same block as requests is modelled sequentially",
 		"request committees are compared as ordered lists (draw order of the specification), TSS committees as id-sorted lists",
-		"TSS selection is exercised at keeper level on synthetic groups in a store branch (no DKG, no live signing group, no on-chain MsgRequestSignature); DE contents are arbitrary curve points",
+		"tss layer: keeper level on synthetic groups in a store branch, DE contents are arbitrary curve points; live layer: real group, real requests and retries, eligible set from the model described in tssworld/selection.go (idle members of every attempt timing out in a block are deactivated before any retry committee of that block is drawn)",
 		"IBC-originated oracle requests and validators with tokens >= 2^64 are not driven",
 	)
 	referenceSelfTest(run)
@@ -181,6 +184,8 @@ func main() {
 			chainCase(run, c.Case)
 		case "tss":
 			runTSS(run, []int{c.Case})
+		default: // histories of the live layer carry the case number only
+			liveLayer(run)
 		}
 		run.Finish()
 	}
@@ -194,6 +199,10 @@ func main() {
 		sim.Parallel(run.N(64, 4_000), 16, func(i int) { chainCase(run, i) })
 	}
 
+	if *only == "all" || *only == "live" {
+		liveLayer(run)
+	}
+
 	samples.emit(run)
 	for _, c := range []string{
 		"selftest:nist-sha512-example-ok", "selftest:cavp-sha256-count0-ok",
@@ -205,6 +214,8 @@ func main() {
 		"chain:committee-with-bonded-but-inactive-validator-present", "chain:committee-with-active-but-unbonded-validator-present",
 		"chain:committee-with-equal-power-different-tokens", "chain:committee-with-total-weight-above-2^63", "chain:rolling-seed-updates-checked",
 		"tss:direct-selection-compared", "tss:attempt-selection-compared", "tss:attempt>1-selection-compared",
+		"live:attempt-selection-compared", "live:attempt-created-in-tx", "live:retry-selection-compared", "live:retry-after-deactivations-in-same-end-block",
+		"live:retry-with-proper-subset-eligible", "live:attempt-created-in-end-block-by-other-module",
 		"tss:direct-insufficient-signers-as-predicted", "tss:attempt-insufficient-signers-as-predicted", "tss:threshold=all-available",
 	} {
 		run.Require(c, 1)
